@@ -101,3 +101,50 @@ func streamSmall(shard, shards int) {
 		}
 	}
 }
+
+// Exhaustive index arithmetic: arrays of length 0..4 (at the root and nested) x every
+// operation kind x every index spelling in a window around the bounds, under all four
+// combinations of SupportNegativeIndices and AllowMissingPathOnRemove.
+func streamIndex() {
+	toks := []string{"-", "", "x", "01", "+1", "-0", "00", "1e0", " 1", "1 "}
+	for i := -7; i <= 7; i++ {
+		toks = append(toks, fmt.Sprintf("%d", i))
+	}
+	idx := 0
+	for n := 0; n <= 4; n++ {
+		var elems []string
+		for k := 0; k < n; k++ {
+			elems = append(elems, []string{"10", "null", `{"a":1}`, `[7]`, `"s"`}[k])
+		}
+		arr := "[" + strings.Join(elems, ",") + "]"
+		for _, nested := range []bool{false, true} {
+			doc, base := arr, ""
+			if nested {
+				doc, base = `{"a":`+arr+`,"b":1}`, "/a"
+			}
+			for _, t := range toks {
+				p := encString(base+"/"+t, false)
+				var ops []string
+				ops = append(ops,
+					`{"op":"add","path":`+p+`,"value":99}`,
+					`{"op":"remove","path":`+p+`}`,
+					`{"op":"replace","path":`+p+`,"value":99}`,
+					`{"op":"test","path":`+p+`,"value":10}`,
+					`{"op":"test","path":`+p+`,"value":null}`,
+					`{"op":"copy","from":`+p+`,"path":`+encString(base+"/-", false)+`}`,
+					`{"op":"copy","from":`+encString(base+"/0", false)+`,"path":`+p+`}`,
+					`{"op":"move","from":`+p+`,"path":`+encString(base+"/0", false)+`}`,
+					`{"op":"move","from":`+encString(base+"/0", false)+`,"path":`+p+`}`,
+					`{"op":"add","path":`+encString(base+"/"+t+"/z", false)+`,"value":1}`,
+					`{"op":"remove","path":`+encString(base+"/"+t+"/a", false)+`}`)
+				for _, op := range ops {
+					for _, fl := range []aopts{{neg: true, esc: true}, {neg: false, esc: true}, {neg: true, allow: true, esc: true}, {neg: false, allow: true, esc: true},
+						{neg: true, ensure: true, esc: true}} {
+						idx++
+						emitApply(fmt.Sprintf("index-%d", idx), acase{o: fl, doc: []byte(doc), patch: []byte("[" + op + "]")})
+					}
+				}
+			}
+		}
+	}
+}
